@@ -1651,6 +1651,75 @@ func layGenLigText(c *Ctx, i int) {
 	}
 }
 
+
+// ---------- large kern subtables (stream layout.kern.big) ----------
+
+// layBigPair is pair number i of the formula-defined big kern tables.
+func layBigPair(i int) (l, r, v int) { return i / 200, i%200 + 300, i%97 - 48 }
+
+func layBigSamples(n int) []int {
+	var out []int
+	for _, i := range []int{0, 1, 199, 200, n / 2, 10918, 10919, 10920, 10921, n - 2, n - 1} {
+		if i >= 0 && i < n {
+			out = append(out, i)
+		}
+	}
+	return out
+}
+
+// layRunKernBig: one format 0 subtable with n pairs (for n > 10920 its 16-bit length field holds
+// 14+6n mod 65536, as kern.Info.Encode and real large fonts write it), read by the real kern.Read.
+func layRunKernBig(f Fields) string {
+	n := f.Int("n")
+	var data []byte
+	if f["enc"] == "lib" {
+		info := kern.Info{}
+		for i := 0; i < n; i++ {
+			l, r, v := layBigPair(i)
+			info[glyph.Pair{Left: glyph.ID(l), Right: glyph.ID(r)}] = funit.Int16(v)
+		}
+		data = info.Encode()
+	} else {
+		s := laySub{flags: 1, pairs: make([][3]int, n)}
+		for i := range s.pairs {
+			l, r, v := layBigPair(i)
+			s.pairs[i] = [3]int{l, r, v}
+		}
+		data = layEncKern([]laySub{s})
+	}
+	m, err := kern.Read(bytes.NewReader(data))
+	if err != nil {
+		return errKind(err)
+	}
+	var parts []string
+	for _, i := range layBigSamples(n) {
+		l, r, _ := layBigPair(i)
+		if v, ok := m[glyph.Pair{Left: glyph.ID(l), Right: glyph.ID(r)}]; ok {
+			parts = append(parts, fmt.Sprintf("%d:%d", i, v))
+		} else {
+			parts = append(parts, fmt.Sprintf("%d:-", i))
+		}
+	}
+	return fmt.Sprintf("count=%d;%s", len(m), strings.Join(parts, ","))
+}
+
+func layGenKernBig(c *Ctx) {
+	// 10921 and 10922 pairs are left out: 14+6n mod 65536 is 4 resp. 10, which kern.Read refuses as
+	// "invalid kern subtable length" (open finding C15-kern-wrapped-length; the line is replayed by ./check)
+	for _, n := range []int{1, 300, 10920, 10923, 11000, 20000} {
+		for _, enc := range []string{"own", "lib"} {
+			c.Case(Direct, "layout.kern.big", fmt.Sprintf("n=%d enc=%s", n, enc), true)
+			c.Stat("kernbig.pairs", fmt.Sprint(n))
+		}
+	}
+	n := c.Rng.Range(10000, 30000)
+	if n == 10921 || n == 10922 {
+		n = 10924
+	}
+	c.Case(Direct, "layout.kern.big", fmt.Sprintf("n=%d enc=%s", n, Pick(c.Rng, []string{"own", "lib"})), true)
+	c.Stat("kernbig.pairs", "random 10000-30000")
+}
+
 func areaLayout(c *Ctx) {
 	nFind := c.N / 2
 	nKern := c.N / 5
@@ -1674,6 +1743,7 @@ func areaLayout(c *Ctx) {
 	for i := 0; i < c.N/4; i++ {
 		layGenPipe(c, i)
 	}
+	layGenKernBig(c)
 	for i := 0; i < c.N/12; i++ {
 		layGenLigText(c, i)
 		layGenKernAdv(c)
@@ -1812,6 +1882,7 @@ func init() {
 	}
 	ops["layout.trivial"] = func(f Fields) string { return "ok" }
 	ops["layout.ligd"] = func(f Fields) string { return "ok" }
+	ops["layout.kern.big"] = func(f Fields) string { return canonPanic(guard(func() string { return layRunKernBig(f) })) }
 	ops["layout.alias"] = func(f Fields) string { return canonPanic(guard(func() string { return layRunAlias(f) })) }
 	ops["layout.kernadv"] = func(f Fields) string {
 		return canonPanic(guard(func() string {
